@@ -253,7 +253,7 @@ def run_one(mod, case, ctx):
         frames = traceback.extract_tb(e.__traceback__)
         top = ""
         for fr in reversed(frames):
-            if "/cherab/" in fr.filename:
+            if "/cherab/" in fr.filename or fr.filename.startswith("cherab/"):
                 top = os.path.basename(fr.filename) + ":" + fr.name
                 break
         if _innermost_is_harness(e.__traceback__) and not getattr(e, "from_target", False):
